@@ -126,6 +126,15 @@ ALIAS_LOG: list = []  # (kind, var) for to/astype(copy=False) that returned the 
 
 def _promote(a: _DT, b: _DT, op):
     an, bn = a.name, b.name
+    if 'datetime64' in (an, bn):
+        # time points: differences are integers in the unit of the time points; an integer offset gives a time point
+        if an == bn == 'datetime64' and op == 'sub':
+            return DType.int64
+        if an == 'datetime64' and bn in _INTS and op in ('add', 'sub'):
+            return DType.datetime64
+        if bn == 'datetime64' and an in _INTS and op == 'add':
+            return DType.datetime64
+        raise DTypeError(f'no {op} between {an} and {bn}')
     if op == 'div' and an in _INTS + ('bool',) and bn in _INTS + ('bool',):
         return DType.float64
     if an == bn:
